@@ -159,7 +159,7 @@ def P_C19 (p : Program) (r : Result) : List String :=
   (r.roots.zipIdx.flatMap fun (b, i) => if b.subseqOk then [] else [s!"c19:fn{i}:extension-instruction-missing-in-ancestor"])
 
 def isExtInstr : Instr → Bool
-  | .ext _ _ => true
+  | .ext _ _ _ => true
   | _ => false
 
 /-! ### C04 -/
